@@ -164,6 +164,27 @@ impl DcpsDomainParticipant {
         }
     }
 
+    #[tracing::instrument(skip(self, runtime))]
+    pub fn delete_publisher_contained_entities(
+        &mut self,
+        publisher_handle: &InstanceHandle,
+        runtime: &impl DdsRuntime,
+    ) -> DdsResult<()> {
+        let Some(publisher) = self
+            .domain_participant
+            .user_defined_publisher_list
+            .iter_mut()
+            .find(|x| &x.instance_handle == publisher_handle)
+        else {
+            return Err(DdsError::AlreadyDeleted);
+        };
+
+        for data_writer in core::mem::take(&mut publisher.data_writer_list) {
+            self.announce_deleted_data_writer(data_writer, runtime);
+        }
+        Ok(())
+    }
+
     #[tracing::instrument(skip(self))]
     pub fn get_default_datawriter_qos(
         &mut self,
